@@ -401,6 +401,8 @@ class RIBFamily:
         walks, nexh = self.gen_walks(ctx, res)
         trace = os.path.join(ctx.work, "trace.ndjson")
         info = self.record(ctx, walks, trace)
+        if info.get("gate_missing"):
+            raise Infra("a gated call never reached its gate: a verif hook of the implementation is missing (MANIFEST.hooks)")
         run, mism = self.validate(ctx, trace)
         stats = self.stats(trace, self.prop)
         self.judge(ctx, res, trace, mism)
@@ -1191,7 +1193,7 @@ class ClientFamily(RIBFamily):
         return [{k: v for k, v in e.items() if k != "st"} for e in evs]
 
     def vh_args(self, ctx, rc):
-        return ["-random", str(rc["n"]), "-len", str(rc["len"])]
+        return ["-random", str(rc["n"]), "-len", str(rc["len"]), "-storm", str(rc.get("storm", 0))]
 
     def rule(self):
         if self.prop == "C13":
@@ -1210,7 +1212,7 @@ for _p in ("C13", "C14"):
     REGISTRY[_p] = ClientFamily(_p,
         mc={"quick": [dict(MaxSteps=7, MaxOps=3)], "thorough": [dict(MaxSteps=9, MaxOps=4)]},
         sims=_CL_SIMS, exh=_CL_EXH,
-        random_cfg={"quick": {"n": 25, "len": 40}, "thorough": {"n": 500, "len": 60}})
+        random_cfg={"quick": {"n": 25, "len": 40, "storm": 6}, "thorough": {"n": 500, "len": 60, "storm": 60}})
 
 
 # ---------------------------------------------------------------------------
